@@ -800,8 +800,21 @@ def wire_struct(case, trace):
 
 
 def judge_struct_req(case, trace):
-    return {'p': 'C18', 'k': 'judge_struct', 'members': case['members'],
-            'trace': [[t['struct'], t['mem']] for t in trace]}
+    """values and error states of every record.  'announced': a value update of the struct was sent during the operation;
+    'flagged': the members in error state (or never announced) after it.  The record that joins the threads of an overlapping
+    phase is not one operation: no claim about error states there"""
+    members = case['members']
+    joined = len(case['pre']) + 1 if case['kind'] == 'structconc' else None
+    return {'p': 'C18', 'k': 'judge_struct', 'members': members,
+            'trace': [[t['struct'], t['mem'],
+                       {'ok': bool(t['ok']), 'announced': i != joined and any(e[0] == 'struct' for e in t['evs']),
+                        'flagged': [m for m, p in zip(members, t['mP']) if p]}] for i, t in enumerate(trace)]}
+
+
+def annotate(trace, answer):
+    """the clause each rejected record breaks, as the Lean monitor reports it (for signature and report)"""
+    for i, clause in answer.get('clauses', []):
+        trace[i]['clause'] = clause
 
 
 def gen_struct(rng, big, layout=None, n=None):
@@ -1952,10 +1965,9 @@ def conc_compare(case, trace, info, answer):
 
 def signature(case, bad, trace):
     kind = case['kind']
-    if kind == 'struct':
-        return sig_struct(case, bad)
-    if kind == 'structconc':
-        return sig_struct_conc(case, bad)
+    if kind in ('struct', 'structconc'):
+        sig = sig_struct(case, bad) if kind == 'struct' else sig_struct_conc(case, bad)
+        return sig + (':member-left-in-error-state' if trace[bad].get('clause') == 'member-left-in-error-state' else '')
     if kind == 'floatenum':
         return sig_floatenum(case, bad, trace)
     if kind == 'limits':
@@ -1995,6 +2007,7 @@ def judged_sigs(ctx, case):
     a = ctx.driver.batch([judge])[0]
     if 'driver_error' in a:
         raise RuntimeError(a['driver_error'])
+    annotate(trace, a)
     res = {}
     for i in new_bads(case, trace, a['bads']):
         res.setdefault(signature(case, i, trace), i)
@@ -2145,6 +2158,7 @@ def _run_conc(ctx, res, corpus, big):
         kinds = {op[0] for prog in case['progs'] for op in prog}
         if len(kinds) >= 2 and info['preemptions'] > 0 and len({json.dumps(t['struct']) for t in trace}) >= 2:
             res.nontriv({k: v for k, v in case.items() if k != 'ops'})
+        annotate(trace, judge)
         for bad in new_bads(case, trace, judge['bads']):
             sig = signature(case, bad, trace)
             npre = len(case['pre'])
@@ -2253,6 +2267,7 @@ def _run_chunk(ctx, res, cases, offset, ncorpus, shrunk):
             if d is not None and len(res.disagreements) < 20:
                 res.disagreements.append({'case': case, 'at': d, 'model': mo[d] if d < len(mo) else None,
                                           'impl': io[d] if d < len(io) else None})
+        annotate(trace, judge)
         for bad in new_bads(case, trace, judge['bads']):
             sig = signature(case, bad, trace)
             if sig in {v['sig'] for v in res.violations if v['case'] is case}:
@@ -2296,6 +2311,7 @@ def replay(ctx, rp):
         print('       impl  :', json.dumps(io[i]))
         print('       model :', json.dumps(mo[i]) if isinstance(mo, list) and i < len(mo) else mo)
     print('judge :', a[1])
+    annotate(trace, a[1])
     bads = new_bads(case, trace, a[1].get('bads', []))
     for i in bads:
         print(f'rejected record [{i}]:', signature(case, i, trace))
